@@ -16,7 +16,8 @@ def tla_prog(prog):
 
 
 def model(wd, name, msgs, prog, cap=2, drain_one=False, level_blind=False, export=False, simulate=None, depth=None,
-          tlcseed=None, liveness=True, workers=8, timeout=3000, crashers=(), stop_after_torn=False, senders_first=False):
+          tlcseed=None, liveness=True, workers=8, timeout=3000, crashers=(), stop_after_torn=False, senders_first=False,
+          late=()):
     mod = "R_" + name.replace("-", "_")
     with open(os.path.join(wd, mod + ".tla"), "w") as f:
         f.write("---- MODULE %s ----\nEXTENDS MCReceiverSet\nMCMsgs == %s\nMCProg == %s\n====\n" % (
@@ -24,13 +25,13 @@ def model(wd, name, msgs, prog, cap=2, drain_one=False, level_blind=False, expor
     cfg = os.path.join(wd, mod + ".cfg")
     with open(cfg, "w") as f:
         f.write("SPECIFICATION %s\nCONSTANTS\n  Members = {%s}\n  MMsgs <- MCMsgs\n  Prog <- MCProg\n  Cap = %d\n"
-                "  DrainOne = %s\n  LevelBlindAdd = %s\n  Crashers = {%s}\n  StopAfterTorn = %s\n  SendersFirst = %s\n"
+                "  DrainOne = %s\n  LevelBlindAdd = %s\n  Crashers = {%s}\n  StopAfterTorn = %s\n  SendersFirst = %s\n  LateMembers = {%s}\n"
                 "INVARIANTS %s %s\n%s%s\n" % (
                     "FairSpec" if (liveness and not simulate) else "Spec",
                     ", ".join(str(i + 1) for i in range(len(msgs))), cap,
                     "TRUE" if drain_one else "FALSE", "TRUE" if level_blind else "FALSE",
                     ", ".join(map(str, crashers)), "TRUE" if stop_after_torn else "FALSE",
-                    "TRUE" if senders_first else "FALSE", INV,
+                    "TRUE" if senders_first else "FALSE", ", ".join(map(str, late)), INV,
                     "Export" if export else "",
                     "PROPERTIES Completes\n" if (liveness and not simulate) else "",
                     "" if (export or simulate) else "VIEW View"))
@@ -120,7 +121,7 @@ def campaign(pid, plans):
     for pl in plans:
         t0 = time.time()
         kw = dict(msgs=pl["msgs"], prog=pl["prog"], crashers=pl.get("crashers", ()),
-                  senders_first=pl.get("senders_first", False))
+                  senders_first=pl.get("senders_first", False), late=pl.get("late", ()))
         for cap in pl.get("caps", (1, 2)):
             r = model(wd, "%s-mc-cap%d" % (pl["name"], cap), cap=cap, liveness=pl.get("liveness", True), **kw)
             require_ok(r, "ReceiverSet " + pl["name"])
@@ -146,7 +147,8 @@ def campaign(pid, plans):
         if pl.get("limit") and len(sch) > pl["limit"]:
             sch = rnd.sample(sch, pl["limit"])
         cases = [{"msgs": pl["msgs"], "prog": pl["prog"], "sched": s["sched"], "log": s["log"], "selects": s["selects"],
-                  "procs": list(pl.get("crashers", ())), "attach": bool(pl.get("attach"))} for s in sch]
+                  "procs": list(pl.get("crashers", ())), "attach": bool(pl.get("attach")),
+                  "late": list(pl.get("late", ()))} for s in sch]
         verdicts = replay(cases)
         nbad = 0
         for c, v in zip(cases, verdicts):
